@@ -25,3 +25,7 @@ Theorem C16_gen_comb_jit_exact : forall N k,
   0 <= N <= INTP_MAX -> 0 <= k <= N -> gen_comb_jit N k <> 0 -> gen_comb_jit N k = binomZ N k.
 Proof. intros N k. rewrite gen_comb_jit_eq. exact (comb_jit_exact N k). Qed.
 Print Assumptions C16_gen_comb_jit_exact.
+
+Theorem C16_tie_next_k_array : forall a, gen_next_k_array a = next_k_array a.
+Proof. exact gen_next_k_array_eq. Qed.
+Print Assumptions C16_tie_next_k_array.
